@@ -10,6 +10,7 @@
 (*   delv(v)    DeleteVertsForShape({v})                                   *)
 (*   reload     save, load                                                 *)
 (*   get        GetShapePartitions                                         *)
+(*   default    SetDefaultPartition                                        *)
 (* The abstract state is the label of every triangle by its identity k     *)
 (* (-2: the triangle is gone).  What the library must show:                *)
 (*   after get      the labels it returns are the assigned ones up to the  *)
@@ -41,6 +42,11 @@ Step(a, op) ==
                          ELSE LET nl == Relabel(a, op.p, op.np) IN
                               \* body[k]: the body part id of the info given for k's label (op.pids: the ids of the infos passed)
                               [lab |-> nl, fresh |-> TRUE, body |-> [k \in DOMAIN nl |-> IF nl[k] = Gone THEN -1 ELSE op.pids[nl[k] + 1]]]
+      \* SetDefaultPartition: one partition, every triangle in it (its body part id is the library's choice: not judged).
+      \* Its vertex map lists every vertex of the shape, used or not, until the next rebuild: like after a deletion, a reload
+      \* in this state is judged for validity and coverage only.
+      [] op.k = "default" -> [lab |-> [k \in DOMAIN a.lab |-> IF a.lab[k] = Gone THEN Gone ELSE 0], fresh |-> FALSE,
+                              body |-> [k \in DOMAIN a.lab |-> -1]]
       [] op.k = "update" -> [a EXCEPT !.fresh = TRUE]
       [] op.k = "delv" -> [a EXCEPT !.lab = [k \in DOMAIN a.lab |-> IF Uses(k, op.v) THEN Gone ELSE a.lab[k]], !.fresh = FALSE]
       [] OTHER -> a
